@@ -63,4 +63,9 @@ def main(argv=None):
 
 
 if __name__ == '__main__':
-    sys.exit(main())
+    code = main()
+    sys.stdout.flush()
+    sys.stderr.flush()
+    # leave without interpreter shutdown: worker pools that were terminated after an error (or whose workers died
+    # in code under test) can block the atexit joins of multiprocessing forever
+    os._exit(code if isinstance(code, int) else 0)
